@@ -32,7 +32,7 @@ class StackGen:
         out = []
         quick = tier == "quick"
         alpha = ["push", "pop", "peek"]
-        depth = 7 if quick else 9
+        depth = 6 if quick else 8
         for cap, ex in ([(1, "2"), (2, "1.5"), (3, "2")] if quick else [(c, e) for c in (1, 2, 3, 4) for e in ("2", "1.5", "1.1")]):
             for n in range(0, depth + 1):
                 for seq in itertools.product(alpha, repeat=n):
@@ -49,8 +49,7 @@ class StackGen:
         full = ["push 1", "push 2", "push 0", "pop", "peek", "size", "map", "filter_mut", "mk_filter to=1", "drop o=1",
                 "it_new", "it_next", "it_replace 9", "mk_new to=2 cap=1 exp=2", "push 4 o=2", "zit_new o=0 p=2", "zit_next",
                 "zit_replace 7 8"]
-        d2 = 3 if quick else 4
-        for cap in ((1, 2) if quick else (1, 2, 3)):
+        for cap, d2 in (((1, 3), (2, 2)) if quick else ((1, 4), (2, 3), (3, 3))):
             for n in range(0, d2 + 1):
                 for seq in itertools.product(full, repeat=n):
                     out.append([f"new cap={cap} exp=2"] + list(seq) + ["destroy"])
